@@ -81,15 +81,21 @@ def run_case(ctx, k, rng):
     if len(set(lengths)) == 1:
         ctx.check("equal-lengths=>log n", abs(E - math.log(n)) <= tol, got=E, logn=math.log(n))
 
+    if kind in ("int", "equal") and np.all(dgm == np.round(dgm)):
+        try:
+            Ei = float(call(ctx, dgm.astype(np.int64))[0])
+            ctx.check("integer barcode == float barcode of the same values", abs(Ei - E) <= tol, int_form=Ei, float_form=E)
+        except Exception as e:
+            ctx.exception("integer barcode == float barcode of the same values", e)
     if scen == 0:  # invariances
         perm = rng.permutation(n)
         Ep = float(call(ctx, dgm[perm])[0])
         ctx.check("perm-invariant", abs(Ep - E) <= (1e-12 if exact else 1e-10) * (1 + math.log(n)), got=Ep, base=E)
         if exact:
-            t = float(rng.integers(-16, 17))
+            t = float(rng.integers(-16, 17)) if rng.random() < 0.6 else float(rng.choice([1e6, -1e6, 2.0 ** 30, 1e9]))
             Et = float(call(ctx, dgm + t)[0])
             ctx.check("translate-invariant", abs(Et - E) <= tol, got=Et, base=E, shift=t)
-            c = 2.0 ** int(rng.integers(-10, 11))
+            c = 2.0 ** int(rng.integers(-10, 11)) if rng.random() < 0.6 else 2.0 ** int(rng.choice([-40, -30, 30, 40]))
             Ec = float(call(ctx, dgm * c)[0])
             ctx.check("rescale-invariant", abs(Ec - E) <= tol, got=Ec, base=E, factor=c)
         else:
